@@ -228,6 +228,23 @@ Theorem restart_loads_imported_image_partial : forall dst old members on_disk_sm
 Proof. exact restart_loads_imported_image. Qed.
 Print Assumptions restart_loads_imported_image_partial.
 
+(* PARTIAL as above. The first start after the import (intact image) loads it;
+   on every later start while the imported record is still the newest one an
+   on-disk state machine - which shrank the image after that first recovery -
+   does NOT load the shrunk image although the record is still Imported: it
+   keeps the durable state it opened with. *)
+Theorem first_restart_loads_image_partial : forall dst old members on_disk_sm ondisk_init,
+  s_dummy old = false -> 0 < s_index old ->
+  restart_recover on_disk_sm false ondisk_init (get_processed dst old members) = RcLoaded.
+Proof. exact first_restart_loads. Qed.
+Print Assumptions first_restart_loads_image_partial.
+
+Theorem later_restart_skips_shrunk_image_partial : forall dst old members ondisk_init,
+  s_dummy old = false -> 0 < s_index old ->
+  restart_recover true true ondisk_init (get_processed dst old members) = RcSkipped.
+Proof. exact later_restart_skips_shrunk_image. Qed.
+Print Assumptions later_restart_skips_shrunk_image_partial.
+
 (* without the flag the same record is skipped by an on-disk state machine that
    has applied anything at all *)
 Theorem restart_without_imported_flag_refuted :
